@@ -11,7 +11,7 @@ RULE = ("case = generic SDE x accepted (method, options incl. grad_free, Levy mo
         "requiring grad or fixed (direction in parameters only); every accepted cell is enumerated once with either, then "
         "Hypothesis adds random cases. The "
         "directional derivative from torch.autograd (backprop through sdeint) is compared with the central difference "
-        "(eps 1e-5, float64) of the loss along that direction with the Brownian path held fixed (same entropy). Adaptive "
+        "(eps 1e-5 and eps/2, Richardson-extrapolated, float64) of the loss along that direction with the Brownian path held fixed (same entropy). Adaptive "
         "cases freeze the schedule: the base run records every error estimate and the +/-eps runs replay them (by "
         "temporarily replacing adaptive_stepping.compute_error), because the controller's step size depends continuously "
         "on the state and is deliberately not differentiated. Non-trivial = >= 3 steps and non-zero gradient on drift and "
@@ -269,6 +269,17 @@ def run_case(case):
     lp, _ = loss_at(+EPS, False, replay=list(record) if case["adaptive"] else None)
     lm, _ = loss_at(-EPS, False, replay=list(record) if case["adaptive"] else None)
     fd = float(lp - lm) / (2 * EPS)
+    # second central difference at half the step and Richardson extrapolation (error O(eps^4)): where the loss is strongly
+    # curved along the direction (gradients of a few hundred after many coarse steps) the eps^2 term of the plain central
+    # difference alone is of the order of the 1e-6 tolerance
+    lp2, _ = loss_at(+EPS / 2, False, replay=list(record) if case["adaptive"] else None)
+    lm2, _ = loss_at(-EPS / 2, False, replay=list(record) if case["adaptive"] else None)
+    fd_half = float(lp2 - lm2) / EPS
+    fd_plain = fd
+    fd = (4.0 * fd_half - fd) / 3.0
+    # what the finite difference itself cannot resolve: half the observed truncation step plus the cancellation error of
+    # subtracting two losses (8 ulp of the larger one, divided by the step)
+    fd_noise = 0.5 * abs(fd_half - fd_plain) + 8 * 2.2e-16 * max(abs(float(lp2)), abs(float(lm2))) / (EPS / 2)
     an = 0.0
     gnorm = 0.0
     nz = {"f": False, "g": False}
@@ -284,7 +295,7 @@ def run_case(case):
             if name.startswith("g") or name.startswith("G"):
                 nz["g"] = True
     floor = 1e-6 * gnorm ** 0.5
-    e = abs(an - fd) / max(abs(fd), floor, 1e-300)
+    e = max(abs(an - fd) - fd_noise, 0.0) / max(abs(fd), floor, 1e-300)
     steps = (tm["t1"] - tm["t0"]) / tm["dt"]
     labels = [solve.combo_label(combo), "adaptive" if case["adaptive"] else "fixed",
               "y0_requires_grad" if y0_grad else "y0_fixed"] + ([f"frozen={frozen_kind}"] if frozen_kind else []) + \
